@@ -13,6 +13,12 @@ def check_L1(report, facts, rule):
     """resolve_labels: labels[name] = running sum of size() of the items before the label."""
     pa = LR.pass_analysis(facts, 'resolve_labels')
     n = 0
+    if pa.pos_var is None:
+        # a counter that visibly starts elsewhere is a finding; no recognisable counter at all is no verdict (raised in there)
+        require_offset_from_zero(report, pa, pa.fn, rule, 'resolve_labels', 'offset counting starts at 0',
+                                 'no running offset that starts at 0 and advances by the size of each item')
+        report.count('label definition sites', sum(len(r['acc'].label_sets) for r in pa.rows))
+        return
     for r in pa.rows:
         for key, val, node, idx in r['acc'].label_sets:
             n += 1
@@ -26,7 +32,10 @@ def check_L1(report, facts, rule):
                                                             'a label is recorded as {} instead of the running offset at its definition'.format(show(val)), line=node.lineno))
             f = r['path'].facts.get(pa.item)
             isa = f['isa'] if f else set()
-            report.check('Label' in isa, rule, 'only Label items define labels',
+            if not isa:
+                # which items reach this statement is decided by a test the path facts do not capture
+                raise AnalysisError('resolve_labels: the class of the items that define labels is not established on the path [{}]'.format(r['path'].cond_text()[-80:]))
+            report.check(any(facts.is_subclass(c, 'Label') for c in isa if c in facts.classes), rule, 'only Label items define labels',
                          lambda node=node: Finding(rule, 'resolve_labels', node, 'labels are defined from items that are not Label', line=node.lineno))
     report.count('label definition sites', n)
     # position starts at 0
@@ -68,7 +77,9 @@ def require_offset_from_zero(report, pa, fn, rule, fname, text, message):
 
 
 def position_starts_at_zero(report, facts, fname, rule):
-    fn = facts.funcs[fname]
+    fn = facts.funcs.get(fname)
+    if fn is None:
+        raise AnalysisError('anchor vanished: pass {}'.format(fname))
     pa = LR.pass_analysis(facts, fname)
     require_offset_from_zero(report, pa, fn, rule, fname, '{}: offset counting starts at 0'.format(fname),
                              'the pass has no running offset that starts at 0 and advances with the emitted items')
@@ -86,9 +97,55 @@ def method_return_lin(facts, cls, mname):
     for p in paths:
         if p.end != 'return':
             continue
-        val = [e for e in p.events if e[0] == 'return'][-1][1]
+        val = canonical_lookup(facts, [e for e in p.events if e[0] == 'return'][-1][1])
         outs.append((sz.lin(val, p), p, val))
     return m, outs
+
+
+def canonical_lookup(facts, val):
+    """Equivalent spellings inside the small eval methods brought to one form: `env.get(key)` whose result is used as a number on a
+    returning path is `env[key]` (a missing key would have made it None; the None test in front raises, like the original
+    membership test); `x.eval(position, env, line=line)` is the positional call."""
+    from .layout import map_value
+    names = None
+    for ci in facts.classes.values():
+        m = ci.methods.get('eval')
+        if m is not None and len(m.args.args) == 4:
+            names = [a.arg for a in m.args.args][1:]
+            break
+
+    def step(t):
+        if t[0] == 'mcall' and t[2] == 'get' and len(t[3]) == 1 and not (t[4] if len(t) > 4 else ()):
+            return ('sub', t[1], t[3][0])
+        if t[0] == 'mcall' and t[2] == 'eval' and len(t) > 4 and t[4] and names:
+            kw = dict(t[4])
+            args = list(t[3])
+            for nm in names[len(args):]:
+                if nm not in kw:
+                    return t
+                args.append(kw.pop(nm))
+            if not kw:
+                return ('mcall', t[1], 'eval', tuple(args), ())
+        return t
+    return map_value(val, step)
+
+
+def env_precedence(env, cname, lname):
+    """Which table wins for a name defined in both, for an environment built from the constants and the label table:
+    'constants-first' (ChainMap(constants, labels), {**labels, **constants}), 'labels-first' (the reverse), None = not understood."""
+    cv, lv = ('name', cname), ('name', lname)
+    if env[0] == 'call' and env[1] in ('ChainMap', 'collections.ChainMap') and not env[3] and len(env[2]) == 2:
+        if env[2] == (cv, lv):
+            return 'constants-first'
+        if env[2] == (lv, cv):
+            return 'labels-first'
+    if env[0] == 'dict' and len(env[1]) == 2 and all(k == ('opaque', '**') for k, _ in env[1]):
+        vals = tuple(v for _, v in env[1])          # later entries override earlier ones
+        if vals == (lv, cv):
+            return 'constants-first'
+        if vals == (cv, lv):
+            return 'labels-first'
+    return None
 
 
 def check_L4(report, facts, rule):
@@ -96,6 +153,10 @@ def check_L4(report, facts, rule):
     Position = base + label."""
     pa = LR.pass_analysis(facts, 'resolve_immediates')
     sites = 0
+    from .layout import table_param
+    cname = table_param(facts, 'resolve_immediates', 'constants') or 'constants'
+    lname = table_param(facts, 'resolve_immediates', 'labels') or 'labels'
+    writes_labels = any(r['acc'].label_updates or r['acc'].label_sets or r['acc'].label_other for r in pa.rows)
     for r in pa.rows:
         p = r['path']
         for ev in p.events:
@@ -123,7 +184,12 @@ def check_L4(report, facts, rule):
             report.check(pos == ('lv', pa.pos_var), rule + '.position', 'resolve_immediates evaluates at the item\'s own start offset',
                          lambda node=node, pos=pos: Finding(rule + '.position', 'resolve_immediates', node,
                                                             'immediates are evaluated at {} instead of the offset at which the item starts'.format(show(pos)), line=node.lineno))
-            good_env = env[0] == 'call' and env[1] == 'ChainMap' and env[2] == (('name', 'constants'), ('name', 'labels'))
+            prec = env_precedence(env, cname, lname)
+            if prec is None or (env[0] == 'dict' and writes_labels):
+                # neither of the understood spellings (ChainMap(constants, labels); {**labels, **constants} in a pass that leaves the
+                # table alone): which table wins for a name defined in both is not established
+                raise AnalysisError('resolve_immediates: the evaluation environment {} is not understood'.format(show(env)[:80]))
+            good_env = prec == 'constants-first'
             report.check(good_env, rule + '.env', 'resolve_immediates evaluates against ChainMap(constants, labels)',
                          lambda node=node, env=env: Finding(rule + '.env', 'resolve_immediates', node,
                                                             'immediates are evaluated against {}'.format(show(env)), line=node.lineno))
@@ -193,6 +259,11 @@ def check_L4(report, facts, rule):
                     found.append((n, None))
                     continue
                 ns = n.args[2] if len(n.args) == 3 else None
+                if isinstance(ns, ast.Name) and ns.id not in env_names:
+                    via = local_alias(meth, ns.id, env_names)
+                    if via is not False:
+                        found.append((n, via))
+                        continue
                 if isinstance(ns, ast.Name) and ns.id in env_names:
                     found.append((n, True))
                 elif ns is None or not any(isinstance(x, ast.Name) and x.id in env_names for x in ast.walk(ns)):
@@ -222,21 +293,61 @@ def check_L4(report, facts, rule):
                                  'the arithmetic expression is not evaluated with the given environment as its namespace', line=bad[0].lineno))
 
 
+def local_alias(fn, name, env_names):
+    """Is the local `name` of `fn` the environment parameter under another name?  True: every binding is the parameter itself
+    (`x = env`, `x = env if env is not None else {}`, `x = env or {}`); None: bound from the parameter in a way that is not
+    followed; False: its bindings never mention the parameter."""
+    def is_env(e):
+        return isinstance(e, ast.Name) and e.id in env_names
+
+    def empty(e):
+        return (isinstance(e, ast.Dict) and not e.keys) or (isinstance(e, ast.Call) and isinstance(e.func, ast.Name) and e.func.id == 'dict' and not e.args and not e.keywords)
+    verdicts = []
+    for st in ast.walk(fn):
+        if isinstance(st, ast.Assign) and any(isinstance(t, ast.Name) and t.id == name for t in st.targets):
+            v = st.value
+            if is_env(v):
+                verdicts.append(True)
+            elif isinstance(v, ast.IfExp) and ((is_env(v.body) and empty(v.orelse)) or (is_env(v.orelse) and empty(v.body))) \
+                    and all(is_env(x) or not isinstance(x, ast.Name) for x in ast.walk(v.test)):
+                verdicts.append(True)
+            elif isinstance(v, ast.BoolOp) and isinstance(v.op, ast.Or) and len(v.values) == 2 and is_env(v.values[0]) and empty(v.values[1]):
+                verdicts.append(True)
+            elif any(is_env(x) for x in ast.walk(v)):
+                verdicts.append(None)
+            else:
+                verdicts.append(False)
+        elif isinstance(st, (ast.AugAssign, ast.For, ast.With, ast.NamedExpr)) and any(isinstance(x, ast.Name) and x.id == name and isinstance(x.ctx, ast.Store) for x in ast.walk(st)):
+            verdicts.append(None)
+    if not verdicts:
+        return False
+    if all(v is True for v in verdicts):
+        return True
+    if all(v is False for v in verdicts):
+        return False
+    return None
+
+
 def check_L5(report, facts, rule):
     """labels is never rebound inside a pass, and assemble hands the caller's dict to every pass."""
-    for name, guard, node, args, tgt in pipeline(facts):
-        fn = facts.funcs[name]
-        params = [a.arg for a in fn.args.args]
-        if 'labels' not in params:
-            continue
-        bad = []
-        for n in ast.walk(fn):
-            if isinstance(n, ast.Name) and n.id == 'labels' and isinstance(n.ctx, (ast.Store, ast.Del)):
-                bad.append(n)
-        report.check(not bad, rule, '{}: parameter `labels` never rebound'.format(name),
-                     lambda bad=bad, name=name: Finding(rule, name, getattr(bad[0], '_parent', bad[0]),
-                                                        'the pass rebinds `labels`: its updates no longer reach the table the caller reads', line=bad[0].lineno))
-        pass
+    from .layout import table_param
+    done = set()
+    for name, guard, node, args, call in pipeline(facts):
+        for fname in pass_functions(name, call):
+            fn = facts.funcs.get(fname)
+            if fn is None or fname in done:
+                continue
+            done.add(fname)
+            lname = table_param(facts, fname, 'labels')
+            if lname is None:
+                continue
+            bad = []
+            for n in ast.walk(fn):
+                if isinstance(n, ast.Name) and n.id == lname and isinstance(n.ctx, (ast.Store, ast.Del)):
+                    bad.append(n)
+            report.check(not bad, rule, '{}: parameter `{}` never rebound'.format(fname, lname),
+                         lambda bad=bad, fname=fname, lname=lname: Finding(rule, fname, getattr(bad[0], '_parent', bad[0]),
+                                                                          'the pass rebinds `{}`: its updates no longer reach the table the caller reads'.format(lname), line=bad[0].lineno))
     # assemble hands one and the same table to every pass that takes `labels`: the caller's dict when one is given
     from .layout import pass_pipeline
     pl = pass_pipeline(facts)
@@ -252,11 +363,12 @@ def check_L5(report, facts, rule):
             if f is None:
                 continue
             params = [a.arg for a in f.args.args]
-            if 'labels' in params and params.index('labels') < len(c.args):
-                seen_values.setdefault(c.name, set()).add(c.args[params.index('labels')])
+            lname = labels_param(facts, c.name)
+            if lname in params and params.index(lname) < len(c.args):
+                seen_values.setdefault(c.name, set()).add(c.args[params.index(lname)])
     for value, calls, assumed in pl.all_paths_with_assumptions():
-        none_path = ('labels is None', True) in assumed or ('labels is not None', False) in assumed or ('labels == None', True) in assumed \
-            or ('not labels is None', False) in assumed
+        none_path = any(none_test(text, 'labels') == ('is-none' if outcome else 'is-not-none') for text, outcome in assumed
+                        if none_test(text, 'labels') is not None)
         tables = []
         from .layout import item_passes
         for nm, c, its in item_passes(facts, calls):
@@ -264,10 +376,11 @@ def check_L5(report, facts, rule):
             if f is None:
                 continue
             params = [a.arg for a in f.args.args]
-            if 'labels' not in params:
+            lname = labels_param(facts, c.name)
+            if lname not in params:
                 continue
-            idx = params.index('labels')
-            v = c.args[idx] if idx < len(c.args) else dict(c.kwargs).get('labels') if not isinstance(c.kwargs, dict) else c.kwargs.get('labels')
+            idx = params.index(lname)
+            v = c.args[idx] if idx < len(c.args) else dict(c.kwargs).get(lname) if not isinstance(c.kwargs, dict) else c.kwargs.get(lname)
             tables.append((c, v))
         for c, v in tables:
             n += 1
@@ -279,6 +392,26 @@ def check_L5(report, facts, rule):
                          lambda c=c: Finding(rule, 'assemble', c.node, '{} is handed a different label table than {}'.format(c.name, tables[0][0].name),
                                              line=getattr(c.node, 'lineno', afn.lineno)), nontrivial=False)
     report.count('label table hand-overs', n)
+
+
+def pass_functions(name, call):
+    """The functions behind one row of the pipeline: the listed name, the function finally called and the wrappers in between."""
+    out = [name]
+    if call is not None:
+        for x in tuple(call.via) + (call.name,):
+            if x not in out:
+                out.append(x)
+    return out
+
+
+def labels_param(facts, fname):
+    """The parameter of `fname` that holds the label table: the one that receives assemble's `labels` on an evaluated path; a
+    parameter literally called `labels` otherwise (a pass that is handed some other object under that name must still be
+    reported)."""
+    from .layout import table_param
+    f = facts.funcs.get(fname)
+    params = [a.arg for a in f.args.args] if f is not None else []
+    return table_param(facts, fname, 'labels') or ('labels' if 'labels' in params else None)
 
 
 def param_holds_labels(facts, fname, pname):
@@ -312,40 +445,39 @@ def caller_table(v, pname):
     if v == ('param', pname):
         return True
     if v[0] == 'choice':
-        test = ' '.join(str(v[1]).split())
         a, b = v[2], v[3]
-        if test in ('{} is not None'.format(pname), '{} != None'.format(pname), 'not {} is None'.format(pname)):
+        kind = none_test(str(v[1]), pname)
+        if kind == 'is-not-none':
             return a == ('param', pname) and b[0] == 'ref'
-        if test in ('{} is None'.format(pname), '{} == None'.format(pname)):
+        if kind == 'is-none':
             return b == ('param', pname) and a[0] == 'ref'
     return False
 
 
-def _offset_only_in_unfollowed_calls(facts, val, pos):
-    """The call of a repository function / local closure inside `val` that hides every occurrence of `pos` (None when `pos` does not
-    occur, or occurs in the open: arithmetic, a method of the item, a constructor argument)."""
-    if not IS.contains(val, pos):
+def none_test(text, pname):
+    """'is-none' / 'is-not-none' when the test (source text) compares the parameter with None - either operand order, `is` or
+    `==`, possibly under `not` - else None."""
+    try:
+        node = ast.parse(text.strip(), mode='eval').body
+    except SyntaxError:
         return None
-    found = []
-
-    def walk(t):
-        # True when pos occurs in t outside any unfollowed call
-        if t == pos:
-            return True
-        if not isinstance(t, tuple):
-            return False
-        if t and t[0] == 'call' and len(t) == 4 and isinstance(t[1], str) and t[1] in facts.funcs and IS.contains(t, pos):
-            from .pathwalk import imm_eval_wrappers
-            if t[1] in imm_eval_wrappers(facts):
-                return True          # the evaluation of an immediate at this offset: understood (a baking site)
-            found.append(t)
-            return False
-        if t and t[0] == 'callv' and IS.contains(t, pos):
-            found.append(t)
-            return False
-        return any(walk(x) for x in t)
-    in_the_open = walk(val)
-    return found[0] if (found and not in_the_open) else None
+    neg = False
+    while isinstance(node, ast.UnaryOp) and isinstance(node.op, ast.Not):
+        node, neg = node.operand, not neg
+    if not (isinstance(node, ast.Compare) and len(node.ops) == 1):
+        return None
+    l, r = node.left, node.comparators[0]
+    is_p = lambda e: isinstance(e, ast.Name) and e.id == pname
+    is_none = lambda e: isinstance(e, ast.Constant) and e.value is None
+    if not ((is_p(l) and is_none(r)) or (is_none(l) and is_p(r))):
+        return None
+    if isinstance(node.ops[0], (ast.Is, ast.Eq)):
+        positive = True
+    elif isinstance(node.ops[0], (ast.IsNot, ast.NotEq)):
+        positive = False
+    else:
+        return None
+    return 'is-none' if positive != neg else 'is-not-none'
 
 
 def pass_effects(facts):
@@ -359,34 +491,90 @@ def pass_effects(facts):
         if name in out or name in ('read_lines', 'resolve_blobs'):
             continue
         eff = set()
+        behind = pass_functions(name, tgt)
+        in_pass = lambda fn: any(fn == b or fn.startswith(b + '.') for b in behind)
         pa = LR.pass_analysis(facts, name)
         for r in pa.rows:
-            if r['acc'].label_updates or r['acc'].label_sets:
+            if r['acc'].label_updates or r['acc'].label_sets or r['acc'].label_other:
                 eff.add('MUT')
             # a value computed from the running offset is stored into an emitted item (align padding): it is only right if no
             # later pass changes the size of anything before it
-            if pa.pos_var is not None and any(IS.contains(val, ('lv', pa.pos_var)) for val, n in r['app_values']):
+            if pa.pos_var is not None:
                 for val, n in r['app_values']:
-                    hidden = _offset_only_in_unfollowed_calls(facts, val, ('lv', pa.pos_var))
-                    if hidden is not None:
-                        # the running offset is handed to a helper that is not followed, and the helper's result is what reaches the
-                        # item (the name of a form chosen by a search, say): whether bytes depend on the offset is not known
-                        raise AnalysisError('{}: the item appended at line {} is built from {}, a call that takes the running offset and is not followed'.format(
-                            name, getattr(n, 'lineno', '?'), show(hidden)[:80]))
-                eff.add('BAKE')
-                eff.add('POSBAKE')
+                    dep = offset_dependence(pa, r['path'], val)
+                    if dep == 'data':
+                        eff.add('BAKE')
+                        eff.add('POSBAKE')
+                    elif dep == 'opaque':
+                        eff.add('POS?')       # the offset goes into a call that is not followed (a local search helper): what comes back is not known
         for s in sites:
-            if s.fn == name or s.fn.startswith(name + '.'):
-                uses_labels = IS.contains(s.env, ('name', 'labels')) or s.env[0] == 'name'
+            if in_pass(s.fn):
+                uses_labels = IS.contains(s.env, ('name', pa.labels_name)) or s.env[0] == 'name'
                 if s.kind == 'BAKE' and uses_labels:
                     eff.add('BAKE')
+                    eff.add('EVALBAKE')
                 elif s.kind in ('PEEK', 'RETURN') and uses_labels:
                     eff.add('PEEK')
         for c in wcalls:
-            if c['fn'] == name or c['fn'].startswith(name + '.'):
+            if in_pass(c['fn']):
                 eff.add('BAKE' if c['kind'] == 'BAKE' else 'PEEK')
+                if c['kind'] == 'BAKE':
+                    eff.add('EVALBAKE')
         out[name] = eff
     return out
+
+
+def label_writing_passes(facts):
+    """Names of the passes that may still move labels: those ordered before the first pass that bakes label-dependent values
+    into items, on both arms of `compress` (L3: once values are baked nothing may move).  Derived from the effects of the passes,
+    not from their names."""
+    eff = pass_effects(facts)
+    before, after = set(), set()
+    for compress in (False, True):
+        order = [n for n, g, node, a, t in pipeline(facts) if g == 'always' or (g == 'compress' and compress)]
+        bakes = [i for i, n in enumerate(order) if 'EVALBAKE' in eff.get(n, ())]
+        if not bakes:
+            raise AnalysisError('effect analysis found no BAKE pass')
+        before |= set(order[:bakes[0]])
+        after |= set(order[bakes[0]:])
+    return before - after
+
+
+def offset_dependence(pa, path, val):
+    """How an emitted item depends on the running offset: 'data' - the offset (or arithmetic on it, with the methods of the item
+    followed) is stored in the item; 'opaque' - the offset only goes into calls that are not followed (a local closure that looks a
+    rule up at this offset and returns its name); None - not at all."""
+    pos = ('lv', pa.pos_var)
+    if not IS.contains(val, pos):
+        return None
+    try:
+        val = pa.sizes.resolve(val, path)
+    except AnalysisError:
+        pass
+    found = {'data': False, 'opaque': False}
+    from .pathwalk import imm_eval_wrappers
+    wrappers = imm_eval_wrappers(pa.facts)
+    methods = set()
+    for ci in pa.facts.classes.values():
+        methods.update(ci.methods)
+
+    def walk(t, hidden):
+        if t == pos:
+            found['opaque' if hidden else 'data'] = True
+            return
+        if not isinstance(t, tuple):
+            return
+        k = t[0] if t and isinstance(t[0], str) else None
+        inside = hidden
+        if k == 'callv' or (k == 'call' and isinstance(t[1], str) and t[1] not in LR.PURE_BUILTINS) or (k == 'mcall' and len(t) > 2 and t[2] in methods):
+            inside = True
+            if k == 'call' and t[1] in wrappers:
+                inside = hidden      # the evaluation of an immediate at this offset: understood (a baking site)
+        for x in t:
+            if isinstance(x, tuple):
+                walk(x, inside)
+    walk(val, False)
+    return 'data' if found['data'] else ('opaque' if found['opaque'] else None)
 
 
 def check_position_frozen(report, facts, rule):
@@ -397,6 +585,9 @@ def check_position_frozen(report, facts, rule):
     for compress in (False, True):
         order = [(nm, node) for nm, g, node, a, t in pipeline(facts) if g == 'always' or (g == 'compress' and compress)]
         for b, (nm, node) in enumerate(order):
+            if 'POS?' in eff.get(nm, ()) and 'POSBAKE' not in eff.get(nm, ()) and any('MUT' in eff.get(order[m][0], ()) for m in range(b + 1, len(order))):
+                report.undecided('{}: the running offset goes into a call that is not followed and whose result is stored in the emitted item; whether the item '
+                                 'depends on the offset is not established'.format(nm))
             if 'POSBAKE' not in eff.get(nm, ()):
                 continue
             n += 1
@@ -426,42 +617,93 @@ def check_bake_after_mut(report, facts, rule):
     return eff
 
 
+SCALAR_BUILTINS = {'len', 'bool', 'str', 'repr', 'sum', 'min', 'max', 'any', 'all', 'isinstance', 'id', 'hash', 'int', 'format', 'sorted', 'list', 'tuple', 'set', 'frozenset'}
+MAPPING_COPIES = {'dict', 'ChainMap', 'collections.ChainMap', 'OrderedDict', 'collections.OrderedDict', 'copy.copy', 'copy.deepcopy', 'copy', 'deepcopy',
+                  'MappingProxyType', 'types.MappingProxyType'}
+
+
+def table_derivative(v, labels):
+    """What a local bound to an expression over the label table is: 'view' (the table itself / a ChainMap over it), 'copy' (a new
+    mapping filled from it), 'scalar' (a number, text, flag or key list computed from it - never an evaluation environment),
+    None = not understood."""
+    is_labels = lambda e: isinstance(e, ast.Name) and e.id == labels
+    if is_labels(v):
+        return 'view'
+    if isinstance(v, ast.Call):
+        d = dotted(v.func)
+        if d in ('ChainMap', 'collections.ChainMap') and any(is_labels(a) for a in v.args):
+            return 'view'
+        if d in SCALAR_BUILTINS:
+            return 'scalar'
+        if d in MAPPING_COPIES:
+            return 'copy'
+        if isinstance(v.func, ast.Attribute) and is_labels(v.func.value):
+            if v.func.attr == 'copy':
+                return 'copy'
+            if v.func.attr in ('get', 'keys', 'values', 'items', '__len__', '__contains__'):
+                return 'scalar'
+        if isinstance(v.func, ast.Attribute) and v.func.attr in ('format', 'join') and isinstance(v.func.value, ast.Constant):
+            return 'scalar'
+        return None
+    if isinstance(v, (ast.Dict, ast.DictComp)):
+        return 'copy'
+    if isinstance(v, (ast.Compare, ast.JoinedStr, ast.ListComp, ast.SetComp, ast.GeneratorExp)) or (isinstance(v, ast.UnaryOp) and isinstance(v.op, ast.Not)):
+        return 'scalar'
+    if isinstance(v, ast.Subscript) and is_labels(v.value):
+        return 'scalar'
+    return None
+
+
 def check_live_env(report, facts, rule):
     """Every environment handed to an evaluation inside a pass that also moves labels must be a *live view* of the label
     table (ChainMap(constants, labels) or the dict itself): a copy taken before the loop goes stale as soon as the pass shifts
     labels, so later decisions in the same pass are taken on offsets that are no longer true."""
     n = 0
-    for name, guard, node, args, tgt in pipeline(facts):
-        fn = facts.funcs[name]
+    seen_fns = set()
+    rows = [(fname, guard) for name, guard, node, args, tgt in pipeline(facts) for fname in pass_functions(name, tgt)]
+    for name, guard in rows:
+        fn = facts.funcs.get(name)
+        if fn is None or name in seen_fns:
+            continue
+        seen_fns.add(name)
         params = [a.arg for a in fn.args.args]
-        if 'labels' not in params:
+        LABELS = labels_param(facts, name)
+        if LABELS is None or LABELS not in params:
             continue
         mutates = any(isinstance(c, ast.Call) and isinstance(c.func, ast.Attribute) and c.func.attr in ('update', '__setitem__', 'pop', 'clear')
-                      and isinstance(c.func.value, ast.Name) and c.func.value.id == 'labels' for c in ast.walk(fn)) or \
-            any(isinstance(s, ast.Assign) and any(isinstance(t, ast.Subscript) and isinstance(t.value, ast.Name) and t.value.id == 'labels' for t in s.targets) for s in ast.walk(fn))
+                      and isinstance(c.func.value, ast.Name) and c.func.value.id == LABELS for c in ast.walk(fn)) or \
+            any(isinstance(s, (ast.Assign, ast.AugAssign)) and any(isinstance(t, ast.Subscript) and isinstance(t.value, ast.Name) and t.value.id == LABELS
+                                                                  for t in (s.targets if isinstance(s, ast.Assign) else [s.target])) for s in ast.walk(fn))
         # locals whose definition mentions labels
         for st in ast.walk(fn):
             if not (isinstance(st, ast.Assign) and len(st.targets) == 1 and isinstance(st.targets[0], ast.Name)):
                 continue
             v = st.value
-            mentions = any(isinstance(x, ast.Name) and x.id == 'labels' for x in ast.walk(v))
-            if not mentions or st.targets[0].id == 'labels':
+            mentions = any(isinstance(x, ast.Name) and x.id == LABELS for x in ast.walk(v))
+            if not mentions or st.targets[0].id == LABELS:
                 continue
             var = st.targets[0].id
             # is this local passed on as an argument of a call (an environment), as opposed to labels.update(<it>)?
             used_as_env = False
             for c in ast.walk(fn):
                 if isinstance(c, ast.Call):
-                    if isinstance(c.func, ast.Attribute) and c.func.attr == 'update' and isinstance(c.func.value, ast.Name) and c.func.value.id == 'labels':
+                    if isinstance(c.func, ast.Attribute) and c.func.attr == 'update' and isinstance(c.func.value, ast.Name) and c.func.value.id == LABELS:
                         continue
                     argn = [a for a in list(c.args) + [k.value for k in c.keywords] if isinstance(a, ast.Name) and a.id == var]
                     if argn:
                         used_as_env = True
             if not used_as_env:
                 continue
+            kind = table_derivative(v, LABELS)
+            if kind == 'scalar':
+                continue        # a number / string / flag computed from the table (len(labels), a log text) is no environment
+            if kind is None and mutates:
+                report.undecided('{}: `{}` is derived from the label table ({}) and handed on while the pass moves labels; whether it is a copy that goes stale '
+                                 'is not understood'.format(name, var, unparse(v)[:60]))
+                continue
             n += 1
-            live = isinstance(v, ast.Call) and dotted(v.func) in ('ChainMap', 'collections.ChainMap') and any(isinstance(a, ast.Name) and a.id == 'labels' for a in v.args)
-            live = live or (isinstance(v, ast.Name) and v.id == 'labels')
+            live = isinstance(v, ast.Call) and dotted(v.func) in ('ChainMap', 'collections.ChainMap') and any(isinstance(a, ast.Name) and a.id == LABELS for a in v.args)
+            live = live or (isinstance(v, ast.Name) and v.id == LABELS)
             report.check(live or not mutates, rule, '{}: evaluation environment `{}` is a live view of labels'.format(name, var),
                          lambda name=name, st=st, var=var: Finding(rule, name, st,
                                                                   '`{}` copies the label table ({}) and is then used as the evaluation environment while this pass keeps shifting labels: '
